@@ -3,6 +3,8 @@ import copy
 import math
 import operator
 import random
+
+import numpy as np
 from fractions import Fraction
 
 from .. import core
@@ -22,7 +24,7 @@ RULE = ('random expression trees of depth 1..6 over + - neg abs *k k* /k %k with
         'distinct = (class, operator, operand-class, sign/zero class) buckets')
 ASSUMPTIONS = ['angle_exact gives the denoted value of every operand/result from the stored fields (exact rationals)',
                'comparisons closer than the 1e-8" resolution may answer either way (DESIGN.md section 5)']
-REQUIRED_COUNTERS = ['operand_snapshots_compared', 'rounding_carry_cases', 'modulus_equal_to_angle', 'numpy_scalar_operands', 'round_then_mod_sequences', 'op:add', 'op:sub', 'op:radd', 'op:rsub', 'op:mul', 'op:rmul', 'op:truediv', 'op:neg', 'op:abs', 'op:mod', 'op:eq', 'op:lt',
+REQUIRED_COUNTERS = ['operand_snapshots_compared', 'rounding_carry_cases', 'modulus_equal_to_angle', 'carried_fields_modulo_cases', 'numpy_scalar_operands', 'round_then_mod_sequences', 'op:add', 'op:sub', 'op:radd', 'op:rsub', 'op:mul', 'op:rmul', 'op:truediv', 'op:neg', 'op:abs', 'op:mod', 'op:eq', 'op:lt',
                      'op:gt', 'op:ne', 'op:round', 'trees']
 N = {'quick': 400, 'thorough': 6000}
 SHARDS = {'quick': 16, 'thorough': 32}
@@ -132,9 +134,10 @@ class OpMonitors:
             # degrees, 15/30/45 minutes, 7.5 minutes, 56.25 seconds ...  (A value that merely happens to be representable,
             # such as 46 44 08.608644179898874, is computed a last-bit off by some correct formulations.)
             exact_operand = _short_binary(Fraction(a.minute) / 60) and (n != 'DMSAngle' or _short_binary(Fraction(a.second) / 3600))
-            if (da / k).denominator != 1 or not exact_operand:
+            if ((da / k).denominator != 1 or not exact_operand) and 0 <= dr < k:
                 # next to (not on) a multiple of the modulus the float remainder may legitimately come out just below the
-                # modulus or just above zero; an operand that IS a multiple (robustly exact, see above) must give zero
+                # modulus or just above zero; an operand that IS a multiple (robustly exact, see above) must give zero.
+                # A remainder is never equal to or larger than the (positive) modulus itself: no float `%` returns that.
                 err = min(err, abs(err - k))
         ctx.maxi('C12.op_err_arcsec', float(err * 3600))
         if err > tol:
@@ -528,6 +531,28 @@ def compare_and_round(ns, ctx, rnd, v1, v2, c1, c2):
             r = round(o, rnd.choice([0, 1, 2, 3]))
             r % rnd.choice([360, 180, float(int(abs(d)) + 1), 90])
             ctx.count('round_then_mod_sequences')
+        except Exception:
+            pass
+    # carried fields (seconds = 60 / minutes = 60, as the library's own round() leaves them, or typed that way) whose value is
+    # a whole multiple of the modulus, with the modulus as int, float and numpy integer
+    for cls in ('DMSAngle', 'DDMAngle'):
+        k = rnd.choice([360, 180, 90, 30, 10, 7, 2, 1])
+        D = k * rnd.randint(1, max(1, 359 // k)) - 1
+        n = rnd.choice([None, 0, 1, 2])
+        unit = 10.0 ** -(n or 0)
+        frac = 60.0 - unit * rnd.choice([0.4, 0.1, 0.49])
+        try:
+            o = A.DMSAngle(D, 59, frac) if cls == 'DMSAngle' else A.DDMAngle(D, frac)
+            r = round(o, n)
+            direct = [A.DMSAngle(D, 59, 60.0), A.DMSAngle(D, 60, 0.0), A.DMSAngle(D, 59, 60)] if cls == 'DMSAngle' \
+                else [A.DDMAngle(D, 60.0), A.DDMAngle(D, 60)]
+            for obj in [r] + direct:
+                for kk in (k, float(k), np.int64(k)):
+                    try:
+                        obj % kk
+                    except Exception:
+                        pass
+            ctx.count('carried_fields_modulo_cases')
         except Exception:
             pass
     # rounding that carries: seconds (minutes) within half a unit of the place below 60, minute field 59 or not, both signs
